@@ -1,6 +1,7 @@
 package main
 
 import (
+	"strconv"
 	_ "fmt"
 	"go/token"
 	"go/types"
@@ -18,7 +19,7 @@ func (e *Exec) namedType(pkg, name string) types.Type {
 }
 
 func (e *Exec) labelArg(v Value) string {
-	if s, ok := v.(StrV); ok && s.Sym == nil {
+	if s, ok := v.(StrV); ok && s.isConc() {
 		return s.C
 	}
 	return "x"
@@ -346,7 +347,7 @@ func (e *Exec) intrinsic(fn *ssa.Function, args []Value) (Value, bool) {
 		return StrV{Sym: e.fresh("sprintf", 64)}, true
 	case "fmt.Errorf":
 		f, ok := args[0].(StrV)
-		if !ok || f.Sym != nil {
+		if !ok || !f.isConc() {
 			panic(unsupported{"fmt.Errorf with non-constant format"})
 		}
 		idx, ok := wVerbArgs(f.C)
@@ -451,6 +452,17 @@ func (e *Exec) zz(name string, args []Value) Value {
 		return IntV{T: e.P.BV(64, v), Signed: true}
 	case "Str":
 		return StrV{Sym: e.input(e.labelArg(args[0]), 64)}
+	case "StrN":
+		// bounded symbolic string: every byte string of length <= max
+		label := e.labelArg(args[0])
+		n := e.concInt(args[1])
+		l := e.input(label+".len", 64)
+		e.assume(e.P.Cmp("bvule", l, e.P.BV(64, uint64(n))))
+		b := make([]*Term, n)
+		for i := range b {
+			b[i] = e.input(label+".b"+strconv.Itoa(i), 8)
+		}
+		return StrV{B: b, L: l}
 	case "Time":
 		e.now() // make sure clock0 exists: replay maps instants relative to it
 		return TimeV{NS: e.timeInput(e.labelArg(args[0]))}
@@ -512,7 +524,7 @@ func (e *Exec) zz(name string, args []Value) Value {
 
 func concStr(v Value) (string, bool) {
 	s, ok := v.(StrV)
-	if !ok || s.Sym != nil {
+	if !ok || !s.isConc() {
 		return "", false
 	}
 	return s.C, true
